@@ -528,6 +528,15 @@ def check_runner_and_deploy(seed, acc):
             acc.violation("C13/deploy/changed-file-not-uploaded", "the merged document differs from the device's but nothing is uploaded", dict(w, target=target))
         return
     acc.count("deploy_uploads")
+    # the third-party jsonpatch library itself does not round-trip some array-of-object edits: such inputs cannot be judged
+    import jsonpatch
+    try:
+        lib_ok = J(jsonpatch.JsonPatch(json.loads(json.dumps(jsonpatch.make_patch(old, target).patch))).apply(copy.deepcopy(old))) == J(target)
+    except Exception:
+        lib_ok = False
+    if not lib_ok:
+        acc.count("skipped_jsonpatch_library_does_not_roundtrip")
+        return
     try:
         after = json.loads(jsontools.apply_patch(None if old is None else json.dumps(old).encode(), up))
     except Exception as e:
